@@ -714,6 +714,12 @@ func (c16) Exec(c *core.Case) (out *core.Outcome) {
 			if delRes.Resp.OK() && upRes.Resp.OK() && len(o.Violations) == 0 {
 				// both acknowledged: only legal if the object is still there (delete must then not have removed the bucket)
 				o.Probe("both_acknowledged_object_present")
+				// ... and the bucket it is in is still the bucket that was created: same owner (an upload that
+				// re-creates the directory of a bucket that was deleted meanwhile leaves a bucket nobody owns)
+				ga := chk.Do(s3c.BucketSub("GET", b, "acl", nil))
+				if !ga.Resp.OK() || !bytes.Contains(ga.Resp.Body, []byte("own16")) {
+					o.Violate("delete-race", "C16/race/"+p.Racer+"/both-acknowledged-bucket-lost-its-owner", "%s: DeleteBucket and the upload were both acknowledged; the object is readable, but GetBucketAcl -> %d without the owner of the bucket (%s)", desc, ga.Resp.Status, abbreviate(string(ga.Resp.Body), 200))
+				}
 			}
 		case "create-mpu":
 			if upRes.Resp.OK() && racerNewID != "" {
